@@ -17,7 +17,7 @@ func Run(c *vrun.Ctx) error {
 	}
 	c.Ev.Coverage.Rule = "TLC enumerates the case machines of spec/filters: Pmt.tla (every matched subset of every block of up to 9 [thorough: 12] transactions plus wide blocks with patterned subsets; Extract(Build) = (matched, root) checked inside TLC), " +
 		"Gcs.tla (every multiset of up to 3 [4] values in the small range with the three match strategies checked equal to membership inside TLC; and the list of difference shapes over the classes equal / adjacent / 2^P-1 / 2^P / 2^P+1 / far / any for the real (P, M) pairs), " +
-		"Basic.tla (blocks of up to 3 transactions over the script classes, chains of up to 3 blocks) and Bloom.tla (all insert sequences of the API up to length 3 [4], the MatchTxAndUpdate table: update flag x txid hit x output class and matching push x input outpoint / push hit). " +
+		"Basic.tla (blocks of up to 3 transactions over the script classes, chains of up to 3 blocks), ChainIdx.tla (every chain of 3 blocks over the tier's coinbase / spend / output choices, coins carrying a created-by-coinbase attribute; all transitions of the state graph replayed on a real node with the committed-filter index) and Bloom.tla (all insert sequences of the API up to length 3 [4], the MatchTxAndUpdate table: update flag x txid hit x output class and matching push x input outpoint / push hit). " +
 		"Every case is replayed into the real code; where the definitions range over hash values the specification does not define (SipHash-reduced values, MurmurHash3 bit positions) the binder records the REAL values of real elements into a trace and TraceGcs.tla / TraceBloom.tla evaluate the definitions on them: the expected filter bytes, framed bytes, query and batch answers, bit fields and MatchTxAndUpdate results are read from those TLC runs. " +
 		"Shapes are realised by searching real elements whose reduced values have exactly the named differences (the trace module re-checks the class of every real difference). " +
 		"distinct_nontrivial counts distinct inputs: (n, flag bits) of a partial merkle tree, (P, M, multiset) and (P, M, shape) of a filter, block layout, insert sequence, decision-table row evaluated without shared bit positions, large-multiset size."
@@ -26,14 +26,14 @@ func Run(c *vrun.Ctx) error {
 	c.Assume("SipHash-2-4 (github.com/aead/siphash, third party) and the reduction hi64(hash * N*M) are recomputed by the binder (math/bits.Mul64, not the code's fastReduction) and fed to the specification; MurmurHash3 bit positions are computed with the exported bloom.MurmurHash3 and the seed rule i*0xfba4c795+tweak: both hash functions and the bloom sizing arithmetic of NewFilter are exercised, not specified")
 	c.Assume("the real bit writer (github.com/kkdai/bstream) is byte based; remainder fields starting at every bit offset of a byte, code words longer than 64 bits and remainders straddling a 64-bit boundary of the stream are counted in gcs_alignments_covered")
 	c.Assume("a filter used to select the matched transactions of a merkle block has the maximum bit field (36000 bytes, 10 hash functions): an accidental extra match has probability below 2^-60 per case")
-	c.Assume("the indexer is driven through CfIndex.ConnectBlock / DisconnectBlock on a real ffldb database with the spent outputs of the specification's block; that the node hands exactly the spent outputs of a block to the indexer is the business of the chain properties")
+	c.Assume("the indexer is bound twice: CfIndex.ConnectBlock / DisconnectBlock called directly on a real ffldb database with the spent outputs of Basic.tla's blocks (coinbase-created flag alternating), and ChainIdx.tla, whose every transition (coinbase outputs, spends of coinbase-created and other coins after maturity 1, output kinds incl. empty / OP_RETURN) is replayed as a real chain into blockchain.BlockChain with the index manager (regression-test parameters, CoinbaseMaturity = 1, anyone-can-spend scripts); the node's spend journal is compared with the specification's spent coins and the filter / hash / header are read back from the index for every block including genesis")
 
 	all := []struct {
 		name string
 		f    func(*vrun.Ctx) error
 	}{{"pmt", runPmt}, {"bloom", runBloom}}
 	var subs []func(*vrun.Ctx) error
-	// development aid: VERIF_C20_PARTS=pmt,gcs runs only those parts (the
+	// development aid: VERIF_C20_PARTS=pmt,gcs,basic,index,bloom runs only those parts (the
 	// evidence then says so and does not claim the whole property)
 	parts := os.Getenv("VERIF_C20_PARTS")
 	for _, p := range all {
@@ -42,8 +42,8 @@ func Run(c *vrun.Ctx) error {
 		}
 	}
 	on := func(name string) bool { return parts == "" || strings.Contains(","+parts+",", ","+name+",") }
-	if on("gcs") || on("basic") {
-		subs = append(subs, func(c *vrun.Ctx) error { return runGcsParts(c, on("gcs"), on("basic")) })
+	if on("gcs") || on("basic") || on("index") {
+		subs = append(subs, func(c *vrun.Ctx) error { return runGcsParts(c, on("gcs"), on("basic"), on("index")) })
 	}
 	if v := os.Getenv("VERIF_C20_CORRUPT"); v != "" {
 		c.Assume("SELF-TEST RUN (VERIF_C20_CORRUPT=" + v + "): an expectation or a recorded value was falsified on purpose; this run proves nothing about btcd")
